@@ -98,6 +98,17 @@ class Check:
                 n += 1
         return n
 
+    def add_audit(self, spec, params, depth, dev, limit=4000):
+        """Audit mode (DESIGN §3.4): no de-duplication; states with equal fingerprints must have equal
+        successors and equal oracle verdicts.  A mismatch is a harness error, never a verdict."""
+        from . import explorer
+        classes, pairs, mism = explorer.audit(spec, params, depth, dev, limit=limit)
+        a = self.cov.setdefault("audit", [])
+        a.append({"spec": spec, "params": params, "depth": depth, "deviations": dev, "classes": classes,
+                  "pairs_compared": pairs, "mismatches": len(mism)})
+        if mism:
+            raise explorer.HarnessError(f"fingerprint audit mismatch in {spec} {params}: {mism[:1]}")
+
     # -- output ----------------------------------------------------------------------------
     def _write_replay(self, rec):
         os.makedirs(REPLAY_DIR, exist_ok=True)
